@@ -23,6 +23,13 @@ structure CrdtOps (σ ω : Type) where
   spec : List ω → List ω → String := fun _ _ => ""
   /-- delivery discipline under which `spec` is claimed: may `op` be applied by a replica knowing `K` (log `U`)? -/
   ok : List ω → List ω → ω → Bool := fun _ _ _ => true
+  /-- the public API call behind `G` panics (e.g. `GList::insert` asserts `idx <= len`) -/
+  genPanics : σ → Nat → List String → Bool := fun _ _ _ => false
+  /-- `apply` panics on this op (before mutating anything) -/
+  applyPanics : σ → ω → Bool := fun _ _ => false
+  /-- specification fields for the observation printed by `G` (state BEFORE the call, actor, api args):
+  the sequential reading of a local edit (C13) -/
+  genSpec : σ → Nat → List String → String := fun _ _ _ => ""
   /-- the dot an op carries, if any (freshness oracle of C07) -/
   opDot : ω → Option String := fun _ => none
 
@@ -110,6 +117,7 @@ def exec (T : CrdtOps σ ω) (m : MState σ ω) (toks : List String) : MState σ
     | some r =>
       match lookup name m.ops, m.reps[r]? with
       | some op, some s =>
+        if T.applyPanics s op then (m, "panic") else
         let okd := T.ok (m.ops.map (·.2)) (m.knownOps r) op
         let m' := ((m.setRep r (T.apply s op)).learn r [name]).setTaint r (!okd)
         (m', obsRep T m' r)
@@ -344,6 +352,7 @@ where
     match m.reps[r]? with
     | none => (m, "badcmd")
     | some s =>
+      if T.genPanics s a args then (m, "panic") else
       match T.gen s a args with
       | none => (m, "nogen")
       | some op =>
@@ -351,7 +360,9 @@ where
           | some d => if m.ops.any (fun (n, o) => n != name && T.opDot o == some d) then " fresh=FAIL" else " fresh=ok"
           | none => ""
         let m' := ({ m with ops := setKey name op m.ops }.setRep r (T.apply s op)).learn r [name]
-        (m', "op=" ++ T.showOp op ++ fresh ++ " " ++ obsRep T m' r)
+        let gs := T.genSpec s a args
+        let line := "op=" ++ T.showOp op ++ fresh ++ " " ++ obsRep T m' r
+        (m', if gs = "" then line else if (line.splitOn " | ").length > 1 then line ++ " " ++ gs else line ++ " | " ++ gs)
 
 end MState
 
